@@ -116,11 +116,38 @@ def _children_hashed_symbolically(f, it):
   return True, ''
 
 
+def _plain_tuple_hashed_memberwise(idx):
+  hf = idx.func(B + 'sym_hash')
+  param = hf.node.args.args[0].arg
+  for n in ast.walk(hf.node):
+    if isinstance(n, ast.If) and {'tuple', 'list'} & _isinstance_kinds(n.test, param):
+      if any(isinstance(r, ast.Return) and r.value is not None and any(
+          isinstance(c, ast.Call) and (A.call_name(c) or '').split('.')[-1] == 'sym_hash' for c in ast.walk(r.value))
+             for b in n.body for r in ast.walk(b)):
+        if 'tuple' in _isinstance_kinds(n.test, param):
+          return True
+  return False
+
+
+def _positional_through_sym_hash(f):
+  """Every return is sym_hash(<tuples/lists of the children, nothing else>)."""
+  rets = [r for r in ast.walk(f.node) if isinstance(r, ast.Return) and r.value is not None]
+  if not rets or not all(isinstance(r.value, ast.Call) and (A.call_name(r.value) or '').split('.')[-1] == 'sym_hash'
+                         for r in rets):
+    return False
+  allowed = {'sym_hash', 'tuple', 'list', 'sym_values', 'sym_items', 'append'}
+  return all((A.call_name(c) or '?').split('.')[-1] in allowed for c in A.calls_in(f.node))
+
+
 def rule_a2(ctx):
   idx = ctx.index
   for cls_fq, it in ((S.DICT, 'sym_items'), (S.LIST, 'sym_values')):
     f = idx.lookup_method(cls_fq, 'sym_hash')
     ok, why = _children_hashed_symbolically(f, it)
+    if not ok and cls_fq == S.LIST and _plain_tuple_hashed_memberwise(idx) and _positional_through_sym_hash(f):
+      # since pg.hash hashes the members of a plain tuple/list symbolically (C06.i), handing the
+      # bare children over in a tuple is the same computation
+      ok, why = True, ''
     # Dict filters MISSING values: the comparison `v != MISSING` is in the `ifs`, not the element
     ctx.ob('C06.a', f.fq + '#children', ok,
            'children enter a container hash through sym_hash (values that are symbolically equal but '
@@ -202,6 +229,41 @@ def rule_c(ctx):
                f'lt has a same-category rule for {NATIVE_UNORDERED[nm]} (Python cannot order it natively)',
                f.loc, f'lt({nm}, {nm}) falls through to `left < right` and raises TypeError: sorting '
                f'a list that contains it twice raises')
+  # container categories that eq compares member-wise (C06.i finds them in eq) are ordered
+  # member-wise too: Python's own `<` on a tuple compares the members natively (TypeError for
+  # (1,) < ('a',), and inconsistent with the symbolic eq of the members)
+  eqf = idx.func(B + 'eq')
+  eq_kinds = set()
+  for n in ast.walk(eqf.node):
+    if isinstance(n, ast.If):
+      eq_kinds |= _isinstance_kinds(n.test)
+  lt_kinds = {}
+  for n in ast.walk(f.node):
+    if isinstance(n, ast.If):
+      for k in _isinstance_kinds(n.test, 'left'):
+        # member-wise: the branch calls lt/eq on members (a recursive call with subscripts / loop vars)
+        rec = [c for b in n.body for c in A.calls_in(b) if (A.call_name(c) or '') in ('lt', 'eq')]
+        lt_kinds[k] = bool(rec)
+  for k in sorted(eq_kinds):
+    ctx.ob('C06.c', f'{f.fq}#same-category:{k}', lt_kinds.get(k, False),
+           f'lt orders two {k}s member-wise with the symbolic lt/eq (as eq compares them)', f.loc,
+           f'lt has no member-wise branch for {k}: it falls through to Python\'s `<`, which raises for members '
+           f'of different kinds (lt((1,), (\'a\',))) and disagrees with the symbolic eq of the members')
+  # keys of two dicts are ordered with lt as well (int and str keys can meet)
+  for n in ast.walk(f.node):
+    if isinstance(n, ast.If) and 'dict' in _isinstance_kinds(n.test, 'left'):
+      key_locals = set()
+      for st in ast.walk(n):
+        if isinstance(st, ast.Assign) and any('keys' in A.unparse(x) for x in ast.walk(st.value) if isinstance(x, ast.Name) or isinstance(x, ast.Attribute)):
+          key_locals |= set(A.assigned_names(st.targets[0]))
+      native = [c for c in ast.walk(n) if isinstance(c, ast.Compare) and len(c.ops) == 1
+                and isinstance(c.ops[0], (ast.Lt, ast.Gt, ast.LtE, ast.GtE))
+                and isinstance(c.left, ast.Name) and isinstance(c.comparators[0], ast.Name)
+                and {c.left.id, c.comparators[0].id} <= key_locals]
+      ctx.ob('C06.c', f'{f.fq}#dict-keys', not native,
+             'differing keys of two dicts are ordered with lt, not with Python\'s `<` (a str key and an int key '
+             'can meet)', f'{f.module.relpath}:{n.lineno}',
+             f'`{A.unparse(native[0]) if native else ""}` raises TypeError for an int key against a str key')
   # categories coincide with what == can relate; ranks distinct and increasing
   ranks = [r for r, _, _ in rows]
   ints = [r for r in ranks if isinstance(r, int)]
@@ -305,11 +367,12 @@ def rule_e(ctx):
            f'Object.{meth} is a function of the class and the attribute container only', f.loc,
            f'consults {sorted(state)}; class consulted: {uses_type}')
   f = idx.lookup_method(S.LIST, 'sym_hash')
-  ok = 'self.sym_values()' in A.unparse(f.node, 1000) and 'self.__class__' in A.unparse(f.node, 1000)
+  # (the class used to be demanded here as the kind tag; eq does not look at the class of a list - C06.i)
+  ok = any(t in A.unparse(f.node, 1000) for t in ('self.sym_values()', 'self.sym_items()'))
   ctx.ob('C06.e', f.fq, ok, 'List.sym_hash iterates the symbolic values (as eq does)', f.loc,
          'List.sym_hash no longer iterates sym_values()')
   f = idx.lookup_method(S.DICT, 'sym_hash')
-  ok = 'self.sym_items()' in A.unparse(f.node, 1000) and 'self.__class__' in A.unparse(f.node, 1000)
+  ok = 'self.sym_items()' in A.unparse(f.node, 1000)
   ctx.ob('C06.e', f.fq, ok, 'Dict.sym_hash iterates the symbolic items (as eq does)', f.loc,
          'Dict.sym_hash no longer iterates sym_items()')
   # Object.sym_eq: same type required, attribute containers compared with eq
@@ -451,9 +514,124 @@ def rule_h(ctx):
          'containers of them) end the walk early - neither lt, gt nor eq holds' if bad else 'lt no longer consults eq')
 
 
+def _isinstance_kinds(test, var=None):
+  """Builtin container kinds demanded by isinstance(<var>, K) calls in a test."""
+  out = set()
+  for c in ast.walk(test):
+    if isinstance(c, ast.Call) and A.call_name(c) == 'isinstance' and len(c.args) == 2:
+      if var is not None and A.unparse(c.args[0]) != var:
+        continue
+      ks = c.args[1].elts if isinstance(c.args[1], ast.Tuple) else [c.args[1]]
+      out |= {k.id for k in ks if isinstance(k, ast.Name) and k.id in ('list', 'tuple', 'dict')}
+  return out
+
+
+def _tag_of(expr):
+  """The kind tag of `sym_hash((TAG, <aggregate>))` / `hash((TAG, ...))`; None when there is none."""
+  if isinstance(expr, ast.Call) and (A.call_name(expr) or '').split('.')[-1] in ('sym_hash', 'hash') and expr.args \
+      and isinstance(expr.args[0], ast.Tuple) and len(expr.args[0].elts) == 2:
+    return A.unparse(expr.args[0].elts[0])
+  return None
+
+
+def rule_i(ctx):
+  """The kinds eq compares member-wise are the kinds pg.hash hashes member-wise.
+  `eq` walks plain list/tuple/dict operands with the symbolic eq of the members
+  (and a plain list/dict equals a pg.List/pg.Dict of the same content), so
+  "equal values have equal hashes" needs, for each such kind, a branch of
+  `sym_hash` that hashes the members through sym_hash - the builtin hash of a
+  list/dict raises and that of a tuple uses the members' identity hashes - and
+  the kind tag the container classes mix into their hash must be the tag of
+  that branch, not the (sub)class."""
+  idx = ctx.index
+  eqf = idx.func(B + 'eq')
+  hf = idx.func(B + 'sym_hash')
+  param = hf.node.args.args[0].arg
+  kinds = set()
+  for n in ast.walk(eqf.node):
+    if isinstance(n, ast.If):
+      kinds |= _isinstance_kinds(n.test)
+  if len(kinds) < 3:
+    raise AnalysisError(f'eq: member-wise branches for list/tuple/dict not found ({sorted(kinds)})')
+  g = C.cfg_of(hf.node)
+  tags = {}
+  for k in sorted(kinds):
+    ok, why = False, f'no isinstance({param}, {k}) branch'
+    for t in g.nodes:
+      if t.kind != 'test' or k not in _isinstance_kinds(t.ast, param):
+        continue
+      for m, lab in t.succ:
+        if lab != 'true':
+          continue
+        seen, _ = g.reach(m, follow_exc=False)
+        seen = set(seen) | {m.id}
+        rets = [g.nodes[i] for i in seen if g.nodes[i].kind == 'return' and g.nodes[i].ast.value is not None]
+        # returns that belong to this branch only: the first one reached
+        rets = [r for r in rets if r.id == m.id or True][:1] if m.kind == 'return' else rets
+        for r in rets:
+          v = r.ast.value
+          inner = [c for c in ast.walk(v) if isinstance(c, ast.Call) and (A.call_name(c) or '').split('.')[-1] == 'sym_hash'
+                   and c.args and isinstance(c.args[0], ast.Name) and c.args[0].id != param]
+          iterates = any(isinstance(c, (ast.ListComp, ast.GeneratorExp, ast.SetComp)) and
+                         any(param in A.names_read(gen.iter) for gen in c.generators) for c in ast.walk(v))
+          if inner and iterates:
+            ok, why = True, ''
+            tags[k] = _tag_of(v)
+            break
+          why = f'the {k} branch returns {A.unparse(v, 80)}: members are not hashed through sym_hash'
+    ctx.ob('C06.i', f'sym_hash#{k}', ok,
+           f'pg.hash of a plain {k} hashes its members symbolically (eq compares them symbolically)', hf.loc,
+           why + f': pg.eq(x, y) holds for two plain {k}s (or a plain one and its pg counterpart) whose pg.hash '
+                 f'differs or raises')
+  for cls_fq, k in ((S.LIST, 'list'), (S.DICT, 'dict')):
+    f = idx.lookup_method(cls_fq, 'sym_hash')
+    ts = {_tag_of(r.value) for r in ast.walk(f.node) if isinstance(r, ast.Return) and r.value is not None}
+    ts.discard(None)
+    want = tags.get(k)
+    ctx.ob('C06.i', f'{f.fq}#kind-tag', bool(ts) and want is not None and ts == {want},
+           f'the kind tag in the hash of pg.{cls_fq.split(".")[-1]} is the tag pg.hash uses for a plain {k} '
+           f'(eq makes no difference between them, nor between subclasses)', f.loc,
+           f'tag(s) {sorted(ts)} vs {want!r} for a plain {k}: equal values hash differently')
+
+
+def rule_j(ctx):
+  """Termination of the lt <-> sym_lt cycle.  `lt(left, right)` hands a pair it cannot
+  decide by category to `left.sym_lt(right)`; `Object.sym_lt` hands a pair of different
+  classes back to `lt` UNCHANGED.  The cycle is cut only if that hand-back happens when the
+  categories differ - two distinct classes of the same qualified name have the same
+  category, so the hand-back must be preceded by a test of the category (a tie-break
+  return) or not happen at all."""
+  idx = ctx.index
+  f = idx.lookup_method(S.OBJECT, 'sym_lt')
+  g = C.cfg_of(f.node)
+  ps = [a.arg for a in f.node.args.args]
+  back = [n for n in g.nodes if n.ast is not None and any(
+      (A.call_name(c) or '').split('.')[-1] == 'lt' and [A.unparse(a) for a in c.args] == ps for c in n.calls())]
+  cat_tests = [n for n in g.nodes if n.kind == 'test' and any(
+      (A.call_name(c) or '').split('.')[-1] == '_type_order' or 'qualname' in A.unparse(c)
+      for c in ast.walk(n.ast) if isinstance(c, (ast.Call, ast.Attribute)))]
+  ok = True
+  wit = ''
+  for b in back:
+    if _reaches_avoiding(g, b, cat_tests):
+      ok = False
+      wit = f'line {b.lineno}'
+  ctx.ob('C06.j', f.fq + '#cycle-cut', ok,
+         'Object.sym_lt hands a pair back to lt unchanged only after testing that their categories differ',
+         f.loc, f'lt(self, other) at {wit} is reached without a category test: for two distinct classes of the same '
+         f'qualified name lt -> sym_lt -> lt never ends (RecursionError while sorting)')
+
+
+def _reaches_avoiding(g, target, avoid):
+  seen, _ = g.reach(g.entry, blocked_nodes={n.id for n in avoid}, follow_exc=False)
+  return target.id in seen
+
+
 def run(ctx):
   ctx.consult(*FILES)
   rule_h(ctx)
+  rule_i(ctx)
+  rule_j(ctx)
   rule_a(ctx)
   rule_a2(ctx)
   rule_b(ctx)
